@@ -632,6 +632,103 @@ def _canon(t):
         return z3.simplify(t).sexpr()
 
 
+def _iv_mul(a, b):
+    ps = [a[0] * b[0], a[0] * b[1], a[1] * b[0], a[1] * b[1]]
+    return (min(ps), max(ps))
+
+
+def interval(t, bounds, depth=0):
+    """sound interval (lo, hi) of a z3 arithmetic term from the declared input
+    ranges only, or None.  Used to decide branches without a solver query."""
+    if depth > 60:
+        return None
+    if z3.is_rational_value(t):
+        v = Fraction(t.numerator_as_long(), t.denominator_as_long())
+        return (v, v)
+    if z3.is_int_value(t):
+        v = Fraction(t.as_long())
+        return (v, v)
+    if not z3.is_app(t):
+        return None
+    k = t.decl().kind()
+    if k == z3.Z3_OP_UNINTERPRETED and t.num_args() == 0:
+        return bounds.get(t.decl().name())
+    ch = t.children()
+    if k == z3.Z3_OP_TO_REAL:
+        return interval(ch[0], bounds, depth + 1)
+    if k == z3.Z3_OP_UMINUS:
+        a = interval(ch[0], bounds, depth + 1)
+        return None if a is None else (-a[1], -a[0])
+    if k == z3.Z3_OP_ADD:
+        lo = hi = Fraction(0)
+        for x in ch:
+            a = interval(x, bounds, depth + 1)
+            if a is None:
+                return None
+            lo += a[0]
+            hi += a[1]
+        return (lo, hi)
+    if k == z3.Z3_OP_SUB:
+        a = interval(ch[0], bounds, depth + 1)
+        if a is None:
+            return None
+        lo, hi = a
+        for x in ch[1:]:
+            b = interval(x, bounds, depth + 1)
+            if b is None:
+                return None
+            lo, hi = lo - b[1], hi - b[0]
+        return (lo, hi)
+    if k == z3.Z3_OP_MUL:
+        # squares are non-negative
+        if len(ch) == 2 and ch[0].eq(ch[1]):
+            a = interval(ch[0], bounds, depth + 1)
+            if a is None:
+                return None
+            if a[0] >= 0:
+                return (a[0] * a[0], a[1] * a[1])
+            if a[1] <= 0:
+                return (a[1] * a[1], a[0] * a[0])
+            return (Fraction(0), max(a[0] * a[0], a[1] * a[1]))
+        r = (Fraction(1), Fraction(1))
+        for x in ch:
+            a = interval(x, bounds, depth + 1)
+            if a is None:
+                return None
+            r = _iv_mul(r, a)
+        return r
+    if k == z3.Z3_OP_DIV:
+        a = interval(ch[0], bounds, depth + 1)
+        b = interval(ch[1], bounds, depth + 1)
+        if a is None or b is None or b[0] <= 0 <= b[1]:
+            return None
+        return _iv_mul(a, (1 / b[1], 1 / b[0]))
+    return None
+
+
+def decide_by_interval(cond, bounds):
+    """True / False if the comparison is decided by input ranges alone, else None"""
+    if not z3.is_app(cond):
+        return None
+    k = cond.decl().kind()
+    if k == z3.Z3_OP_NOT:
+        r = decide_by_interval(cond.arg(0), bounds)
+        return None if r is None else (not r)
+    if k not in (z3.Z3_OP_LE, z3.Z3_OP_LT, z3.Z3_OP_GE, z3.Z3_OP_GT):
+        return None
+    a = interval(cond.arg(0), bounds)
+    b = interval(cond.arg(1), bounds)
+    if a is None or b is None:
+        return None
+    if k == z3.Z3_OP_LE:
+        return True if a[1] <= b[0] else (False if a[0] > b[1] else None)
+    if k == z3.Z3_OP_LT:
+        return True if a[1] < b[0] else (False if a[0] >= b[1] else None)
+    if k == z3.Z3_OP_GE:
+        return True if a[0] >= b[1] else (False if a[1] < b[0] else None)
+    return True if a[0] > b[1] else (False if a[1] <= b[0] else None)
+
+
 class Stats:
     def __init__(self):
         self.queries = 0
@@ -644,6 +741,7 @@ class Stats:
         self.violated = 0
         self.inconclusive = 0
         self.reach_sat = 0
+        self.interval_decided = 0
         self.reasons = []
 
     def as_dict(self):
@@ -676,6 +774,7 @@ class Ctx:
         self.floor_memo = {}
         self.reach_len = -1
         self.nonlinear = False
+        self.bounds = {}
 
     # -- solver helpers
     def _check(self, *extra):
@@ -721,6 +820,8 @@ class Ctx:
         v = z3.Real(name)
         self.inputs[name] = v
         self.input_meta[name] = ('real', lo, hi)
+        if lo is not None and hi is not None:
+            self.bounds[name] = (Fraction(repr(lo)) if isinstance(lo, float) else Fraction(lo), Fraction(repr(hi)) if isinstance(hi, float) else Fraction(hi))
         if lo is not None:
             self.assume(v > rv(lo) if lo_strict else v >= rv(lo))
         if hi is not None:
@@ -731,6 +832,8 @@ class Ctx:
         v = z3.Int(name)
         self.inputs[name] = v
         self.input_meta[name] = ('int', lo, hi)
+        if lo is not None and hi is not None:
+            self.bounds[name] = (Fraction(lo), Fraction(hi))
         if lo is not None:
             self.assume(v >= lo)
         if hi is not None:
@@ -861,6 +964,11 @@ class Ctx:
             return True
         if z3.is_false(cond):
             return False
+        if self.bounds:
+            d = decide_by_interval(cond, self.bounds)
+            if d is not None:
+                self.ex.stats.interval_decided += 1
+                return d
         if self.pos < len(self.prefix):
             ent = self.prefix[self.pos]
             self.pos += 1
